@@ -101,7 +101,7 @@ type c08op struct {
 
 func init() {
 	Registry["C08"] = func(c *Ctx) {
-		c.R.Rule = "breadth-first search over histories of <= n operations from {grog build on machine A, grog build on machine B, grog build on A with the remote disabled (pre-populates A's local cache only), wipe A's local cache, edit an input} where A and B are separate checkouts with separate GROG_ROOTs sharing one remote object store; the remote is a directory-backed fake attached behind the REAL RemoteWrapper through the build overlay, every build is run by the real binary. After every successful remote-enabled build: the remote store passes the offline audit (every target result decodes and references only blobs present in the remote, recursively through trees; every blob hashes to its digest), every result written locally by that build is in the remote, the executed set equals a reference model (nothing that any machine already built with the remote enabled is executed again; outputs identical to a from-scratch build), and a follow-up build without the remote executes nothing (the local cache was filled while reading). Then, for every remote operation instance of two histories, a fault is injected (Get error / reader failing after the first byte / missing object, Put error before or after reading the body or without reading it, Head error / false miss): the build must end with exit 0 and correct outputs or with a non-zero exit, never hang, never leave a dangling reference in the remote. Non-trivial = a build with at least one cache hit served through the remote. Eviction: the remote loses every blob while it keeps the target results and one target is not reproducible: machine B re-executes, afterwards the remote passes the audit (the new result replaced the old one) and a third machine gets B's bytes without executing anything. One key: 2-3 concurrent read-throughs, two write-throughs and a read-through next to a write-through of one key through the real RemoteWrapper over the real FileSystemCache, every file-system call of fs.go and every remote operation a scheduling point, every schedule with <= 2/3 deviations: every reader gets the object's bytes, nothing fails while the remote is healthy, both layers end with the right bytes, nothing hangs."
+		c.R.Rule = "breadth-first search over histories of <= n operations from {grog build on machine A, grog build on machine B, grog build on A with the remote disabled (pre-populates A's local cache only), wipe A's local cache, edit an input} where A and B are separate checkouts with separate GROG_ROOTs sharing one remote object store; the remote is a directory-backed fake attached behind the REAL RemoteWrapper through the build overlay, every build is run by the real binary. After every successful remote-enabled build: the remote store passes the offline audit (every target result decodes and references only blobs present in the remote, recursively through trees; every blob hashes to its digest), every result written locally by that build is in the remote, the executed set equals a reference model (nothing that any machine already built with the remote enabled is executed again; outputs identical to a from-scratch build), and a follow-up build without the remote executes nothing (the local cache was filled while reading). Then, for every remote operation instance of two histories, a fault is injected (Get error / reader failing after the first byte / missing object, Put error before or after reading the body or without reading it, Head error / false miss): the build must end with exit 0 and correct outputs or with a non-zero exit, never hang, never leave a dangling reference in the remote. Non-trivial = a build with at least one cache hit served through the remote. Eviction: the remote loses every blob while it keeps the target results and one target is not reproducible: machine B re-executes, afterwards the remote passes the audit (the new result replaced the old one) and a third machine gets B's bytes without executing anything. One key: 2-3 concurrent read-throughs, two write-throughs and a read-through next to a write-through of one key through the real RemoteWrapper over the real FileSystemCache, every file-system call of fs.go and every remote operation a scheduling point, every schedule with <= 2/3 deviations: every reader gets the object's bytes, nothing fails while the remote is healthy, both layers end with the right bytes, nothing hangs. Single object loss: for every object of the remote's cas/ in turn (file blobs, members of a directory output, tree objects) the remote loses exactly that one; machine B builds (re-executing what it cannot load), afterwards the remote passes the audit and machine A with a wiped cache restores everything without executing."
 		c.R.Assume("the S3/GCS clients themselves cannot run offline: the seam is CacheBackend behind backends.NewRemoteWrapper (real code); the fake remote stores objects atomically like an object store PUT", "both machines address the same remote namespace (the fake ignores bucket/prefix/workspace identity; key construction of the real clients is unit-tested by the repository)")
 		grog, _ := faultBinary(c)
 		if !backendDecorated {
@@ -573,9 +573,93 @@ func init() {
 				os.RemoveAll(u.dir)
 			}
 		}
+		c08SingleBlobLoss(c, grog, abin, base)
 		// concurrent uploads of the same digest (two targets with identical output content), with a failing Put
 		casRace(c, "C08")
 		// concurrent read- and write-throughs of one key through the real wrapper over the real local layer
 		oneKey(c, "C08")
 	}
+}
+
+// c08SingleBlobLoss: the remote loses exactly ONE object of its cas/ directory — every object in turn: a file blob, a
+// member of a directory output whose tree object stays, a tree object whose members stay — while the target results
+// stay. Machine B (empty local cache) builds: it re-executes what it cannot load, and afterwards the remote is a
+// consistent mirror again (the lost object is back, nothing dangles) and machine A with a wiped local cache restores
+// everything without executing.
+func c08SingleBlobLoss(c *Ctx, grog, abin, base string) {
+	w := wsState{}
+	src := w.source()
+	seed, err := newUniverse(base)
+	if err != nil {
+		c.R.BrokenCheck("%v", err)
+		return
+	}
+	defer os.RemoveAll(seed.dir)
+	src.Materialize(seed.a.WS(), nil)
+	src.Materialize(seed.b.WS(), nil)
+	if ra := seed.a.Run(grog, hist.RunOpts{Args: []string{"build", "//..."}, Env: map[string]string{"VERIF_REMOTE_DIR": seed.remote}}); ra.Exit != 0 {
+		c.R.BrokenCheck("single blob loss: first build failed: %s", tail(ra.Output, 300))
+		return
+	}
+	var blobs []string
+	for _, n := range dirNames(seed.remote) {
+		if strings.HasPrefix(n, "cas/") {
+			blobs = append(blobs, n)
+		}
+	}
+	c.R.Set("single_blob_loss_objects", len(blobs))
+	var wg sync.WaitGroup
+	sem := make(chan struct{}, 8)
+	for _, blob := range blobs {
+		wg.Add(1)
+		sem <- struct{}{}
+		go func(blob string) {
+			defer wg.Done()
+			defer func() { <-sem }()
+			u, err := seed.clone(base)
+			if err != nil {
+				c.R.BrokenCheck("clone: %v", err)
+				return
+			}
+			defer os.RemoveAll(u.dir)
+			os.Remove(filepath.Join(u.remote, blob))
+			hist0 := []string{"build on A", "the remote loses the object " + blob + " (everything else stays)", "build on B", "wipe A's local cache and outputs", "build on A"}
+			env := map[string]string{"VERIF_REMOTE_DIR": u.remote}
+			rb := u.b.Run(grog, hist.RunOpts{Args: []string{"build", "//..."}, Env: env, Ceiling: 60e9})
+			replay := map[string]any{"history": hist0, "exit_B": rb.Exit, "executed_on_B": rb.Started(), "output_tail_B": tail(rb.Output, 800)}
+			vio := func(sig, format string, a ...any) {
+				c.R.Violate(vc.Violation{Sig: sig, Detail: fmt.Sprintf("history %v: ", hist0) + fmt.Sprintf(format, a...), Replay: replay})
+			}
+			switch {
+			case rb.TimedOut:
+				vio("C08:build-hangs-after-remote-lost-one-object", "machine B did not finish within 60 s")
+			case rb.Exit != 0:
+				vio("C08:build-fails-after-remote-lost-one-object", "machine B exited %d instead of re-executing what could not be loaded: %s", rb.Exit, tail(rb.Output, 300))
+			default:
+				problems, _, _, _ := auditCache(abin, u.remote, "")
+				for _, p := range problems {
+					vio("C08:remote-audit-after-single-object-loss-and-rebuild:"+p.Kind, "%s", p.Detail)
+				}
+				if len(problems) == 0 {
+					os.RemoveAll(u.a.CacheDir())
+					for _, t := range src.Targets {
+						for _, op := range hist.OutputPaths(t) {
+							os.RemoveAll(filepath.Join(u.a.WS(), op))
+						}
+					}
+					rc := u.a.Run(grog, hist.RunOpts{Args: []string{"build", "//..."}, Env: env, Ceiling: 60e9})
+					replay["exit_A2"], replay["executed_on_A2"] = rc.Exit, rc.Started()
+					if rc.Exit != 0 || rc.TimedOut {
+						vio("C08:build-fails-after-single-object-loss-and-rebuild", "machine A (local cache wiped) exited %d: %s", rc.Exit, tail(rc.Output, 300))
+					} else if len(rc.Started()) > 0 {
+						vio("C08:executed-although-available-in-remote:after-single-object-loss-and-rebuild", "machine A executed %v although machine B had just rebuilt and uploaded everything", rc.Started())
+					}
+				}
+			}
+			c.R.AddCounts(2, 1, 2, 2)
+			c.R.Outcome(fmt.Sprintf("single-loss|B executed %d", len(rb.Started())))
+			c.R.Nontrivial("single-loss|" + blob)
+		}(blob)
+	}
+	wg.Wait()
 }
